@@ -117,13 +117,36 @@ def enum_from_tangent(tier, seed):
             yield (sub, l)
 
 
+P8 = [(0, 1, 1), (1, 2, 1), (2, 1, 1), (-1, 3, 1), (1, -1, 1), (-2, -1, 1), (0, -2, 1), (3, -2, 1)]
+AXIS_LINES = [(0, 1, 0), (1, 0, 0), (0, 0, 1), (1, 1, 0), (1, -1, 0), (2, 1, 0), (0, 1, -1), (1, 0, 1)]
+
+
+def enum_from_tangent2(tier, seed):
+    """Second scope: asymmetric point sets, tangents through the origin (coordinate axes, the line at infinity)."""
+    for sub in itertools.combinations(range(8), 4):
+        pts = [P8[i] for i in sub]
+        if not general(pts):
+            continue
+        a_, b_, c_, d_ = [[F(x) for x in p] for p in pts]
+        diag = [X.cross(X.cross(p1, p2), X.cross(p3, p4)) for p1, p2, p3, p4 in ((a_, b_, c_, d_), (a_, c_, b_, d_), (a_, d_, b_, c_))]
+        for l in AXIS_LINES:
+            if any(sum(a * b for a, b in zip(l, p)) == 0 for p in pts) or any(sum(F(x) * y for x, y in zip(l, dp)) == 0 for dp in diag):
+                continue
+            yield ([i + 100 for i in sub], l)
+
+
+@family("C13", "from_tangent_axes", enum_from_tangent2)
+def case_from_tangent2(ctx, cfg):
+    return case_from_tangent(ctx, cfg)
+
+
 @family("C13", "from_tangent", enum_from_tangent)
 def case_from_tangent(ctx, cfg):
     import geometer as G
 
     sub, l = cfg
     g = grid(1)
-    pts = [g[i] for i in sub]
+    pts = [P8[i - 100] if i >= 100 else g[i] for i in sub]
     ctx.state((tuple(sub), tuple(l)))
     P = [G.Point(np.array(p, dtype=float)) for p in pts]
     L = G.Line(np.array(l, dtype=float))
